@@ -500,6 +500,42 @@ theorem mark_pushes_record (md : Module) (vm : Vm) (recs : List Rec) (i : Instr)
     ghostNext md vm recs = { F := vm.sp + 5, pp := vm.pp, fp := vm.fp, ra := i.w0 } :: recs := by
   unfold ghostNext; simp only [hi, hop]
 
+/-- **A complete (balanced) call returns behind its MARK with exactly its result.**  Let a verified module's machine satisfy the
+global invariant with live records `recs`, about to execute `MARK ra` at stack pointer `sp₀`.  After the MARK (the live records are
+`r₀ :: recs`, `r₀` = the record it pushed), let the run go on in any way — arguments, nested calls, the CALL itself, the whole callee,
+exceptions caught inside — (`RunsG`, side conditions `StepOk` at every step) to a running state whose live records are again exactly
+`r₀ :: recs` and whose instruction is `RET`.  Then that RET — the matching one — continues at `ra` with `sp = sp₀ + 1` (frame record,
+arguments and everything the callee pushed are gone; the one result is pushed), `fp` and `pp` as they were at the MARK, and the global
+invariant holds with live records `recs`: in particular `sp = pp + nparams + h(ra)`, the height the verifier recorded behind the call. -/
+theorem verified_marked_call_returns (md : Module) (sm : Summary) (hm : HMap) (hv : verifyH md = .ok (sm, hm)) (bot : Int)
+    (vm v1 v2 v3 : Vm) (recs : List Rec) (i j : Instr) (orc1 orc3 : Oracle) (k : Nat)
+    (hs : Sound md hm bot vm recs)
+    (hi : md.code[vm.ip]? = some i) (hop : i.op = .MARK)
+    (hstep1 : (step md orc1).run vm = .ok ((), v1)) (hok1 : StepOk md hm vm v1 recs)
+    (hrun : RunsG md hm k v1 ({ F := vm.sp + 5, pp := vm.pp, fp := vm.fp, ra := i.w0 } :: recs) v2 ({ F := vm.sp + 5, pp := vm.pp, fp := vm.fp, ra := i.w0 } :: recs))
+    (hr2 : v2.running = 1) (hj : md.code[v2.ip]? = some j) (hret : j.op = .RET)
+    (hstep3 : (step md orc3).run v2 = .ok ((), v3)) (hok3 : StepOk md hm v2 v3 ({ F := vm.sp + 5, pp := vm.pp, fp := vm.fp, ra := i.w0 } :: recs)) :
+    v3.ip = i.w0 ∧ v3.sp = vm.sp + 1 ∧ v3.fp = vm.fp ∧ v3.pp = vm.pp ∧ v3.running = 1 ∧ Sound md hm bot v3 recs := by
+  have hf := (verifyH_ok md sm hm hv).2
+  have h1 := step_sound hf orc1 vm v1 recs hs hstep1 hok1
+  rw [mark_pushes_record md vm recs i hi hop] at h1
+  -- the machine is still running after the MARK … and at the RET
+  have hs2 : Sound md hm bot v2 ({ F := vm.sp + 5, pp := vm.pp, fp := vm.fp, ra := i.w0 } :: recs) := by
+    rcases h1 with h1 | h1 | h1
+    · rcases runsG_sound hf k v1 v2 _ _ h1 hrun with h | h | h
+      · exact h
+      · omega
+      · omega
+    · cases hrun with
+      | zero => omega
+      | succ _ hr _ _ _ => omega
+    · cases hrun with
+      | zero => omega
+      | succ _ hr _ _ _ => omega
+  obtain ⟨r, rs, e, e1, e2, e3, e4, e5, e6⟩ := verified_ret_step md orc3 sm hm hv bot v2 v3 _ j hj hret hs2 hstep3 hok3
+  cases e
+  exact ⟨e1, by rw [e2]; simp only; omega, e3, e4, e5, e6⟩
+
 /-- **`verify_sound`, relative to its side conditions.**  In a verified module, every run of M-VM — calls, returns, raised and
 re-raised exceptions included — from a state satisfying the global invariant `Sound`, each step of which meets `StepOk`
 (`RunsG`), ends in a state that satisfies the invariant again — running at an address the verifier reached, with exactly
